@@ -388,6 +388,7 @@ package node
 //@   ensures_ghost killAsked(pid) == old(killAsked(pid)) + 1
 //@   ensures [never_back_to_init] smHas(n.processes, any(pid)) ==> procOf(n, pid).state != 1
 //@   requires [tables] tablesWF(n)
+//@   requires [application_group_lock_is_not_held_by_the_caller] smHas(n.processes, any(pid)) && smHas(n.applications, any(procOf(n, pid).application)) ==> !rlocked(appOf(n, procOf(n, pid)).group.RWMutex) && !wlocked(appOf(n, procOf(n, pid)).group.RWMutex)
 //@   assume [tables2] forall k any :: smHas(n.processes, k) ==> unregWF(n, smVal(n.processes, k).(*process))
 //@   at call unregisterProcess assert [finaliser_only] fin(p) == me && owner(p) == 0
 //@   at atomic 1 ghost zs = (result == 2 ? me : zs(p))
@@ -671,6 +672,7 @@ package node
 //@   props C17
 //@   mode int
 //@   requires [wired] a.node != nil && a.node.log != nil && a.behavior != nil
+//@   requires [group_lock_is_not_held_by_the_caller] !rlocked(a.group.RWMutex) && !wlocked(a.group.RWMutex)
 //@   modifies a.state, a.reason, a.started, a.parent, appTermCb(a.behavior), lastTermReason(a.behavior), exitAsked, mapof(a.group.m)
 //@   at range 1 invariant [permanent_exit_seen] forall k gen.PID :: exitAsked(k) == old(exitAsked(k)) + (rseen(1, k) ? 1 : 0)
 //@   at range 2 invariant [transient_exit_seen] forall k gen.PID :: exitAsked(k) == old(exitAsked(k)) + (rseen(2, k) ? 1 : 0)
@@ -730,10 +732,10 @@ package node
 //@ func (a *application) stop
 //@   props C17 C10
 //@   mode int
-//@   requires [wired] a.node != nil && a.node.log != nil && processesWF(a.node)
-//@   at range 1 invariant [asked_seen] forall k gen.PID :: exitAsked(k) == old(exitAsked(k)) + (!force && rseen(1, k) ? 1 : 0)
-//@   at range 1 invariant [killed_seen] forall k gen.PID :: killAsked(k) == old(killAsked(k)) + (force && rseen(1, k) ? 1 : 0)
-//@   at range 1 invariant [tables] processesWF(a.node)
+//@   requires [wired] a.node != nil && a.node.log != nil && tablesWF(a.node)
+//@   at range 1 invariant [asked_seen] !force ==> (forall k gen.PID :: exitAsked(k) == old(exitAsked(k)) + (rseen(1, k) ? 1 : 0))
+//@   at range 1 invariant [killed_seen] force ==> (forall k gen.PID :: killAsked(k) == old(killAsked(k)) + (rseen(1, k) ? 1 : 0))
+//@   at range 1 invariant [tables] tablesWF(a.node) && a.node != nil && a.node.log != nil
 //@   ensures [success_only_when_unloaded_or_signalled] result == nil ==> old(a.state) == 1 || recvcount(a.stopped) == old(recvcount(a.stopped)) + 1
 //@   ensures [already_unloaded_is_success_without_effect] old(a.state) == 1 ==> result == nil && (forall k gen.PID :: exitAsked(k) == old(exitAsked(k)) && killAsked(k) == old(killAsked(k)))
 //@   ensures [busy_or_bad_state_is_refused_without_effect] !force && old(a.state) != 1 && old(a.state) != 2 ==> result != nil && (old(a.state) == 3 ==> result == gen.ErrApplicationStopping) && a.mode == old(a.mode) && (forall k gen.PID :: exitAsked(k) == old(exitAsked(k)) && killAsked(k) == old(killAsked(k)))
@@ -771,6 +773,7 @@ package node
 //@   mode int
 //@   modifies smHas(n.processes), smHas(n.names), smHas(n.aliases), smHas(n.events), exitSent, exitCalls(), routed, routeCalls(), pushed, woken, mwoken, lastLinks(), lastMonitors(), consumerCleaned(p.pid), anyof(process).messagesIn, anyof(gen.MailboxMessage).From, anyof(gen.MailboxMessage).Type, anyof(gen.MailboxMessage).Message, appOf(n, p).state, appOf(n, p).reason, appOf(n, p).started, appOf(n, p).parent, mapof(appOf(n, p).group.m), appTermCb, lastTermReason, exitAsked
 //@   requires [tables] unregWF(n, p)
+//@   requires [application_group_lock_is_not_held_by_the_caller] smHas(n.applications, any(p.application)) ==> !rlocked(appOf(n, p).group.RWMutex) && !wlocked(appOf(n, p).group.RWMutex)
 //@   at call RouteTerminatePID assert [pid_announced_gone_with_the_reason] target == p.pid && reason == caller_reason
 //@   at call RouteTerminateProcessID assert [name_announced_gone_with_the_reason] target.Name == p.name && target.Node == n.name && reason == caller_reason
 //@   at call RouteTerminateAlias assert [alias_announced_gone_with_the_reason] reason == caller_reason
